@@ -47,6 +47,8 @@ S1 ==
                  F("ll", TList(TList(N("O")))),
                  F("d", N("D")), F("dl", TList(N("D"))), F("it", N("IT")), F("itl", TList(N("IT"))), F("ta", N("TA")),
                  F("el", TList(N("E"))), F("eln", TNN(TList(N("E")))), F("uo", N("UO")),
+                 \* leaves of the other built-in scalar types
+                 F("fl", N("Float")), F("bo", N("Boolean")), F("idf", N("ID")), F("fnn", TNN(N("Float"))),
                  [name |-> "f", type |-> N("Int"),
                   args |-> << ArgD("x", N("Int"), IntV("7")), Arg("y", N("Int")),
                               Arg("z", TList(N("Int"))), Arg("in", N("In")), Arg("en", N("E")) >>],
